@@ -149,31 +149,64 @@ def kill(p):
 
 
 def c19(binary, out, rates):
+    """rates: 'omit' | '<n>' | '<n>+phc' (PHC options given, private /sys) | '<n>+json' | '<a>><b>' (start
+    with a, let it publish, kill it, start with b over the same segment)."""
     results = []
-    for r in rates:
+    sys_ready = False
+    for spec in rates:
         try:
             os.unlink(SHM)
         except OSError:
             pass
-        args = [binary] if r == "omit" else [binary, "--max-drift-rate", r]
+        prev_gen = None
+        r = spec
+        if ">" in spec:
+            first, r = spec.split(">", 1)
+            p0 = subprocess.Popen([binary] if first == "omit" else [binary, "--max-drift-rate", first], stdout=subprocess.DEVNULL, stderr=subprocess.DEVNULL)
+            t0 = time.monotonic()
+            seg0 = None
+            while time.monotonic() - t0 < 8.0 and seg0 is None and p0.poll() is None:
+                seg0 = read_segment()
+                time.sleep(0.005)
+            kill(p0)
+            seg0 = read_segment()
+            if seg0 is None:
+                results.append({"rate": spec, "published": None, "exit_code": p0.returncode, "alive_when_observed": False, "waited_s": 0, "stderr_tail": "first instance did not publish", "setup_failed": True})
+                continue
+            prev_gen = struct.unpack_from("=H", seg0, 14)[0]
+        extra = []
+        if r.endswith("+phc"):
+            r = r[:-4]
+            if not sys_ready:
+                subprocess.run("mount -t tmpfs tmpfs /sys && mkdir -p /sys/class/net/eth0/device /sys/bus/pci/devices/0000:00:05.0 && echo PCI_SLOT_NAME=0000:00:05.0 > /sys/class/net/eth0/device/uevent && echo 1234 > /sys/bus/pci/devices/0000:00:05.0/phc_error_bound", shell=True, check=True)
+                sys_ready = True
+            extra = ["--phc-ref-id", "PHC0", "--phc-interface", "eth0"]
+        if r.endswith("+json"):
+            r = r[:-5]
+            extra = ["--json-output"]
+        args = ([binary] if r == "omit" else [binary, "--max-drift-rate", r]) + extra
         t0 = time.monotonic()
         p = subprocess.Popen(args, stdout=subprocess.DEVNULL, stderr=subprocess.PIPE)
         seg = None
         rc = None
         while time.monotonic() - t0 < 8.0:
             seg = read_segment()
+            if seg and prev_gen is not None and struct.unpack_from("=H", seg, 14)[0] == prev_gen:
+                seg = None  # still the previous instance's publication
             if seg:
                 break
             rc = p.poll()
             if rc is not None:
                 seg = read_segment()
+                if seg and prev_gen is not None and struct.unpack_from("=H", seg, 14)[0] == prev_gen:
+                    seg = None
                 break
             time.sleep(0.005)
         waited = time.monotonic() - t0
         alive = p.poll() is None
         kill(p)
         err = p.stderr.read().decode(errors="replace")[-300:] if p.stderr else ""
-        results.append({"rate": r, "published": seg.hex() if seg else None, "exit_code": rc, "alive_when_observed": alive, "waited_s": round(waited, 3), "stderr_tail": err if not seg else ""})
+        results.append({"rate": spec, "published": seg.hex() if seg else None, "exit_code": rc, "alive_when_observed": alive, "waited_s": round(waited, 3), "stderr_tail": err if not seg else ""})
     json.dump(results, open(out, "w"))
 
 
